@@ -34,9 +34,9 @@ for p in props:
 m = {
     "version": 1,
     "setup_cmd": "bash bin/setup.sh",
-    "hooks": {"guard": "verif", "enable": "no hooks are needed in /repo: harnesses, stubs and the vp runtime are injected as go/packages and `go test -overlay` overlays; the tag 'verif' is reserved",
+    "hooks": {"guard": "verif", "enable": "harnesses, stubs and the vp runtime are injected as go/packages and `go test -overlay` overlays; the only hook in /repo is tsdb/wlog/verif_hook.go (build tag verif: a constructor for a WL over an in-memory segment file), used by the C48 harness via -tags verif",
               "baseline_off_cmd": "bash -c 'cd /repo && go build ./... && go test -vet=off -count=1 -timeout 25m ./...'",
-              "source_commits": [], "add_only": True},
+              "source_commits": ["51c014983d"], "add_only": True},
     "engines": [{"name": "gosym", "path": "/verif/engine", "serves_properties": sorted(claimed),
                  "kind_free_text": "path-based symbolic executor for go/ssa (built from /repo's working tree on every run) emitting SMT-LIB2 to z3 4.8.12 / z3 5.1.0 / cvc5 --solve-bv-as-int; native replay and translator validation through go test -overlay"}],
     "checks": out_checks,
